@@ -8,7 +8,8 @@
    ctr <spec>                          -> OK <name> <chain|~> | INVALID
    oneline <s>                         -> " ".join(s.splitlines())
    docname <envelope name|~>           -> name extract_schema_from_document gives the schema (~ : text without envelope line)
-   metaname <META TYPE|~>              -> name compile_gbnf_from_meta gives the schema (~ : no TYPE key)
+   metaname ~ | S:<str> | O            -> name compile_gbnf_from_meta gives the schema (~ : no TYPE key; S: a str value;
+                                          O: any other value) or NONE (the compiler raises on it)
    derive <bound> <csample> <text>     -> C|P words ;-sep    (value fragment of the first rule of text)
    read <cls> <w>                      -> value read from F::w
    accept <ck,ck,..> <cls> <w>         -> 1|0|? <value>
@@ -78,7 +79,11 @@ let handle l =
                    | CtInvalid -> "INVALID")
   | ["oneline"; s] -> tok_of_str (one_line (str_of_tok s))
   | ["docname"; e] -> tok_of_str (doc_schema_name (envelope_doc_name (if e = "~" then None else Some (str_of_tok e))))
-  | ["metaname"; t] -> tok_of_str (meta_schema_name (if t = "~" then None else Some (str_of_tok t)))
+  | ["metaname"; t] ->
+      let ty = if t = "~" then MtAbsent else if t = "O" then MtOther
+               else if String.length t >= 2 && String.sub t 0 2 = "S:" then MtStr (str_of_tok (String.sub t 2 (String.length t - 2)))
+               else failwith ("metaname " ^ t) in
+      (match meta_schema_name ty with Some n -> tok_of_str n | None -> "NONE")
   | ["derive"; bound; cap; t] ->
       (* value fragment of the first rule of grammar text t: drop the 3 leading items ("NAME" "::" ws) *)
       (match field_value_alts (str_of_tok t) with
